@@ -83,7 +83,9 @@ def local_mats(order, term):
 
 
 def dense_operator(order, terms):
-    """sum of kron products over the canonical order (identity on DoFs a term does not touch)"""
+    """sum of kron products over the canonical order (identity on DoFs a term does not touch).  `order` should be
+    L.full_order(tree): basis sets with nbas == 1 contribute their 1x1 local matrices as scalar factors and do not
+    change the layout, which is that of L.real_order(tree)"""
     dim = int(np.prod([b.nbas for b in order])) if order else 1
     res = np.zeros((dim, dim))
     for t in terms:
@@ -198,7 +200,7 @@ def reference_observables(st, spec, terms, psi, names, bt, nodes):
     ref["norm"] = float(np.linalg.norm(psi.ravel()))
     order = L.real_order(bt)
     if terms:
-        O = dense_operator(order, terms)
+        O = dense_operator(L.full_order(bt), terms)
         v = psi.ravel()
         ref["expect"] = complex(v.conj() @ (O @ v))
     node_dofs = {}
@@ -345,7 +347,7 @@ def history_check(spec, bt, nodes, ac, terms, pbt, pterms):
     for st in states.values():
         st.compress_config = CompressConfig(threshold=1e-13)
     dense_of = {k: L.dense(v) for k, v in states.items()}
-    order_of = {k: L.real_order(v.basis) for k, v in states.items()}
+    order_of = {k: L.full_order(v.basis) for k, v in states.items()}
     seen = {}
 
     def use(opname, op, tms, sname, tag):
@@ -458,6 +460,7 @@ def run_spec(spec):
     a._c11_ids = ids
     b._c11_ids = ids
     order = L.real_order(bt)
+    forder = L.full_order(bt)
     names = [bb.dofs[0] for bb in order]
     try:
         da, db = L.dense(a), L.dense(b)
@@ -513,7 +516,7 @@ def run_spec(spec):
     # operator application (full operator)
     terms = spec.get("terms") or []
     if terms:
-        O = dense_operator(order, terms)
+        O = dense_operator(forder, terms)
         try:
             ttno = TTNO(bt, L.build_terms(spec, terms))
         except Exception as e:      # operator construction is C02's subject
@@ -547,7 +550,7 @@ def run_spec(spec):
 
         def c_partial():
             pt = TTNO(pbt, L.build_terms(spec, pterms))
-            Op_ = dense_operator(order, pterms)
+            Op_ = dense_operator(forder, pterms)
             r1 = close(L.dense(pt.apply(a)).ravel(), Op_ @ da.ravel())
             if not r1[0]:
                 return r1
@@ -651,7 +654,7 @@ def run_spec(spec):
                 f2.append(("child-order:add", "dense differs"))
             if terms:
                 o2 = TTNO(bt2, L.build_terms(spec, terms))
-                if not close(L.dense(o2.apply(a2)).ravel(), dense_operator(order, terms) @ dac.ravel())[0]:
+                if not close(L.dense(o2.apply(a2)).ravel(), dense_operator(forder, terms) @ dac.ravel())[0]:
                     f2.append(("child-order:apply", "dense differs"))
             c = s2.copy()
             c.canonicalise()
